@@ -316,7 +316,9 @@ TimingProblem(X, K) ==
       Ref(j) == IF j = 1 THEN MainStart(X) ELSE T(j - 1)
       n == Min2(Len(K), Len(W))
   IN IF X.kind = "dtcread" \/ ~X.opt.valid \/ (X.kind = "ping" /\ X.opt.bg) THEN ""
-     ELSE IF \E j \in 1..n : First(j) - Ref(j) < W[j].d THEN "R4/request-sent-earlier-than-the-documented-delay"
+     ELSE IF \E j \in 1..n : /\ (j = 1 => \E i \in 1..(K[1] - 1) : X.ev[i].ph = "main")   \* main() observably began before
+                               /\ First(j) - Ref(j) < W[j].d
+       THEN "R4/request-sent-earlier-than-the-documented-delay"
      ELSE IF X.kind = "ping" /\ ~X.opt.bg /\ \E j \in 2..n : X.ev[K[j - 1]].r # "sil" /\ First(j) - T(j - 1) > W[j].d + TOL
        THEN "R4/pings-further-apart-than-the-documented-interval"
      ELSE ""
